@@ -189,6 +189,28 @@ CHECKS["C17"] = dict(
     assumptions=["sampled integer points are representative (soundness is checked point-wise, not for the whole set)"],
 )
 
+CHECKS["C13"] = dict(
+    title="Objects are values: copies are independent and aliased arguments are safe",
+    quick=T([("c13_values", 1)], cases=200000, secs=100),
+    thorough=T([("c13_values", 1)], cases=4000000, secs=1200, flavour="san"),
+    rule="case = pool program (3-4 objects, 4-14 steps) over one of C/NNC polyhedra, Grid, BD_Shape<mpq|double>, Octagonal_Shape<mpz>, Rational_Box, "
+         "Pointset_Powerset<C|NNC polyhedron>, Constraints_Product<C_Polyhedron,Grid>, Linear_Expression (dense and sparse), Constraint, "
+         "Generator, Congruence, Grid_Generator and their systems, MIP_Problem, PIP_Problem; steps: copy construction, assignment, swap, "
+         "self-assignment, self-swap, mutation of one object while copies are alive, binary operations between pool members, aliased calls "
+         "x.op(x) for every binary operation, arguments that are references into the receiver (add_constraints(x.constraints()), limited "
+         "extrapolations limited by the receiver's own system, insertion of an element of the same system), the same object in two argument "
+         "positions, recycling entry points. Oracle: a storage-independent model of the value of every pool object (ref::Sys, rl::Grid, "
+         "exact unions, canonical strings): after each step every object not written by the step and every const argument still denotes "
+         "its model; x.op(x) gives the value and answer of x'.op(y') on two equal independent copies (or throws the same exception); "
+         "self-assignment/self-swap keep value and OK(); swap exchanges values; recycled donors stay destructible and assignable. "
+         "Non-trivial: a copy was alive when its source was mutated, or an aliased binary call on a non-empty non-universe value.",
+    technique="property-based testing (stateful pool programs, frame condition against storage-independent models, metamorphic x.op(x) vs x'.op(copy))",
+    level_text="Generated-program exploration with a frame oracle and an aliasing metamorphic oracle.",
+    level_note="ternary operations are covered only where the public interface has them (bounded / generalized affine images with one expression object in two positions).",
+    design_ref="DESIGN.md 4a C13",
+    assumptions=["reference models (ref/refgeom.hh, ref/reflattice.hh) are correct"],
+)
+
 CHECKS["C18"] = dict(
     title="Termination analysis returns only genuine ranking functions; methods agree",
     quick=T([("c18_termination", 1)], cases=60000, secs=50),
